@@ -346,6 +346,20 @@ def admitBatch (cr : Crypto) (cfg : ChainCfg) (height : Nat) : List Bytes → Li
       tx :: admitBatch cr cfg height (tx.hash :: have_) rest
     else admitBatch cr cfg height have_ rest
 
+/-- the hashes in the pool after a batch (what was there plus what the batch added) -/
+def hashesAfter (cr : Crypto) (cfg : ChainCfg) (height : Nat) : List Bytes → List Tx → List Bytes
+  | have_, [] => have_
+  | have_, tx :: rest =>
+    if verifyTx cr cfg height tx = .ok ∧ tx.hash ∉ have_ then
+      hashesAfter cr cfg height (tx.hash :: have_) rest
+    else hashesAfter cr cfg height have_ rest
+
+/-- …and after a sequence of batches delivered one after the other to the same handler: the
+    handlers keep no state of their own, the pool is the only memory -/
+def hashesAfterSeq (cr : Crypto) (cfg : ChainCfg) (height : Nat) (have_ : List Bytes) (batches : List (List Tx)) :
+    List Bytes :=
+  batches.foldl (hashesAfter cr cfg height) have_
+
 /-- the same loop reporting, per position, whether the element was added (what the
     correspondence stream `batch` compares with the pool after the real handler ran) -/
 def admitFlags (cr : Crypto) (cfg : ChainCfg) (height : Nat) : List Bytes → List Tx → List Bool
